@@ -14,18 +14,21 @@ TEXT = {
             "configuration, naming state and file-system answer: rotation check first, then exactly one write_all of the whole buffer to the writer "
             "that is current afterwards, then size accounting; index incremented only after a successful rename; writer replaced only by a fresh one "
             "after open succeeded. Histories follow by induction over these postconditions (lemma in unit `state`).",
-            "Line assembly in StateHandle::write (fn pointers, thread_local) and collision_free_infix/number_infix string code are outside the verifier "
-            "(assumed oracles); single-threaded; file bytes == bytes accepted by write_all once flushed (A1); arithmetic premises A5."),
+            "Not verified: the thread_local / RefCell scaffolding around the copied line-assembly arms, number_infix's format! (an oracle), the `for` statement of "
+            "get_highest_index (its body is verified, a fold lemma covers the loop); single-threaded; file bytes == bytes accepted by write_all once flushed (A1); "
+            "arithmetic premises A5."),
     "C04": ("Verus proves State::flush (written unchanged, Ok => everything flushed, flush actually called), State::shutdown (flush called exactly once, "
             "cleanup handle taken, nothing else changes) and RotationState::shutdown on the extracted bodies, for all states.",
-            "Synchronous core only: the dispatch layers above (&self, dropped results), async mode, flusher threads and the clone/drop clause (finding F9, "
-            "from reading) are not decided by this technique; BufWriter flush-on-drop is assumed (A1)."),
+            "The layers above (StateHandle, FileLogWriter, MultiWriter, PrimaryWriter, LoggerHandle incl. Drop after the repair of F9, FlexiLogger::flush, the async "
+            "writer thread's dispatcher and the async shutdown join) are under contract too (see the added text); NOT decided: the flusher threads, thread schedules "
+            "(C03), the channel's in-order delivery; BufWriter flush-on-drop is assumed (A1)."),
     "C06": ("Verus proves State::initialize_with_rotation / initialize / open_log_file / RollState::new / index_for_rcurrent against a start-up "
             "specification over directory oracles: start index highest+1 (or highest when appending with direct numbering), left-over current file "
             "rotated iff not appending and only tolerated missing (NotFound), open flags append == config.append, truncate == !append, size seeded "
             "from the file length iff appending.",
-            "The directory scans themselves (get_highest_index, latest_timestamp_file, collision_free_infix_for_rotated_file) are assumed oracles; "
-            "effect order inside one function is not expressible."),
+            "The directory scans are under contract piecewise (loop body of get_highest_index, latest_timestamp_file, head and decision of "
+            "collision_free_infix_for_rotated_file, restart_number, the filter closures of filter_files); read_dir itself and chrono parsing are oracles; effect "
+            "order inside one function is expressible only through happened-before token facts (cleanup after open)."),
     "C08": ("Verus proves size_rotation_necessary == (cur > max), rotation_necessary == size part or age part, reset_size_and_date, RollState::new seed, and "
             "through write_buffer / mount_next the exact accounting cur' == (if rotated {0} else {cur}) + len on success and unchanged on a failed write; "
             "Kani proves RollState::increase_size (or-pattern with ref mut is outside Verus) and gives counterexamples for the integer leaves.",
@@ -39,11 +42,12 @@ TEXT = {
             "plain_write and the async dispatch are decided in unit `handle` (see notes); A1."),
     "C18": ("Verus proves State::reopen_outputfile on the extracted body: it opens the stored path with create+append and never truncates, replaces the "
             "writer by a fresh one only on success, keeps path and rotation state; on failure the writer is the old one or the documented dummy sibling.",
-            "StateHandle/LoggerHandle fan-out layers are &self dispatch (not decided); the external rename itself; A1 (old BufWriter flushes on drop)."),
+            "The fan-out layers (StateHandle::{reset, reopen_outputfile, rotate}, FileLogWriter, MultiWriter::reopen_output, LoggerHandle::{reset_flw, reopen_output, "
+            "trigger_rotation}) are under contract by result oracles and token facts; NOT decided: the external rename itself; A1 (old BufWriter flushes on drop)."),
     "C19": ("The error arms of the State contracts hold for every combination of file-system answers of one call: failed start-up leaves the state Initial "
             "(retried), failed rotation is reported with ErrorCode::LogFile only and the record still goes to the current writer, failed write_all keeps the "
             "size account and earlier bytes, index unchanged on a failed rename.",
-            "That the report *is* emitted has no observable post-state (permission = argument flow only); error channel, background cleanup failures not decided."),
+            "NOT decided: failures inside the background cleanup thread and the flusher threads; that stderr / stdout / the error file accept the bytes (A1)."),
 }
 
 TEXT.update({
@@ -73,14 +77,16 @@ TEXT.update({
             "composition of the listing; Kani proves NamingState::writes_direct (complete) and re-checks the selection rule on the compiled code for "
             "listings of 0..5 entries (bounded cross-check, not counted).",
             "Rule R12 (`.into_iter().enumerate()` -> eager shim) and the listing oracle are trusted. Feature `compress` (gzip, finish-before-remove) and the "
-            "background cleanup thread are not verified; `listing is newest first` rests on filter_files and the string order of names (finding F10); "
-            "collision_free_infix_for_rotated_file (seed S-C07-1) is not under contract."),
+            "background cleanup thread are not verified; `listing is newest first` = descending path order (verified: sort_newest_first) + names whose order is their "
+            "age (premise A5, finding F10)."),
     "C10": ("Every function under contract in every unit carries the obligations Verus generates by itself for arithmetic overflow, str/slice/Vec index "
             "preconditions, unwrap/expect, unreachable!, callee preconditions and loop termination, for unbounded inputs; one body obligation per function. "
             "This found the brace-target slicing panic F1 (repaired).",
-            "Covered functions are listed in the evidence; NOT covered (named in DESIGN.md 5/C10): directory-name parsing (filter_files, get_highest_index, "
-            "ts_infix_from_path, collision_free_infix_for_rotated_file, try_from), LogSpecification::parse, StateHandle::write, format functions, syslog, "
-            "specfile; joins/channel receives (hang) are not decided. Arithmetic premises A5 are assumed."),
+            "Covered functions are listed in the evidence (added in the second session: the filter closures of filter_files, the loop body of get_highest_index, "
+            "restart_number, LogSpecification::parse in pieces and Display, the error channel, check_timestamp_format, the symlink functions). NOT covered: "
+            "ts_infix_from_path (bounded Kani catalogue only), read_dir iteration, format functions, syslog, specfile, kv, trc; hangs are decided only where a "
+            "happened-before token expresses them (state lock after the format function, write lock of the error channel without a read guard); joins / channel "
+            "receives are not decided. Arithmetic premises A5 are assumed."),
     "C13": ("Verus proves with unit-local effect permissions on the extracted FlexiLogger::log: an additional writer's write is reached only for a writer "
             "registered under a name listed in the brace target, only with this record, and the default channel only if the list contains _Default and the "
             "specification enables the module path; unknown names reach only the error channel (ErrorCode::WriterSpec). Kani proves the Duplicate u8 "
@@ -100,8 +106,9 @@ TEXT.update({
             "that path and State stores it, and that existing_log_files returns, in order, exactly the listings of the categories the selector asks for "
             "(plain, gz, rCURRENT, custom current) resp. the single recomputed path without rotation. The start-time clause is specified as the program "
             "start; the verifier shows get_timestamp uses the current clock instead (known finding F11).",
-            "FileSpec::try_from (Path parent/file_stem/extension: no specs; finding F4 from reproduction), the symlink, and the directory listing itself "
-            "(read_dir_related_files / filter_files are oracles) are not decided; PathBuf::push is an uninterpreted join."),
+            "FileSpec::try_from, the symlink functions and the membership rule of the listing (filter closures of filter_files, name filter and order of "
+            "read_dir_related_files) are under contract (see the added text); std::path operations (parent / file_stem / extension / push) and read_dir are oracles; "
+            "the start-time part is known finding F11."),
 })
 
 
